@@ -4,4 +4,5 @@ From NV Require Import Bytes GenConsts IoDefs.
 Definition all_types : nat * N * Z := (0%nat, 0%N, 0%Z).
 Extraction "io_model.ml" all_types split_lines norm want slice lbuf_make lbuf_rd lbuf_edit ln ln_sz rd_sbuf
   sbuf_make sbuf_mem sbuf_chr sbuf_buf sb_n sb_sz lbuf_wr lbuf_wr_gen outp wsz ovf save_file read_then_write
-  write_seq ftrunc BATCH.
+  write_seq ftrunc BATCH
+  write_fully write_all fs_get fs_set fs_mtime fs_content lbuf_save ec_write ec_quit quit_loop refuses.
